@@ -485,13 +485,17 @@ class Oracle:
             else:
                 chunks[-1][1].append(o)
         api_all = [o for c, os_ in chunks if c == "api" for o in os_]
-        late = [o for o in api_all if o[0] in ("invoke", "usererror")]          # asyncio: what the loop ran after the call
+        # asyncio: what the loop ran after the call - the Tasks of coroutine handlers (their call, what their bodies send)
+        # and onUserError callbacks.  Everything the call itself sends precedes the first delivery mark.
+        tail = [o for c, os_ in chunks[1:] if c == "api" for o in os_]
+        late = [o for o in tail if o[0] in ("invoke", "usererror") or (o[0] == "sent" and o[1] == "unsub")]
+        late_ids = set(id(o) for o in late)
         n_ev = sum(1 for m in msgs if m[0] == "event")
         specs = self.sub_specs(op0) if k in ("sub", "subobj") else None
         n_sent, first_api = 0, True
         for c, os_ in chunks:
             if c == "api":
-                base = [o for o in os_ if o[0] not in ("invoke", "usererror", "done")]
+                base = [o for o in os_ if id(o) not in late_ids and o[0] not in ("invoke", "usererror", "done")]
                 if k == "unsub":
                     if first_api: self.step_one(i, op0, base)
                 else:
